@@ -64,7 +64,7 @@ class Uci
     PolyglotBook polyglot;
     bool polyglot_sample_random_move;
 
-    friend void start_searching(Uci* uci);
+    friend void start_searching(Uci* uci, Limits limits);
 };
 
 }  // namespace engine
